@@ -139,6 +139,21 @@ def check_rand(recipe) -> list[Fail]:
         cls = getattr(ml, kind)
         obj = chem.build_molecule(r, cls)
         roundtrip(obj, cls, kind, fails, recipe.get("entry", "loads"))
+        if not fails and recipe.get("again") and obj.n_atoms:
+            # the same object, edited in place, written again: the text must follow the current state
+            from molli.chem import BondType
+            with np.errstate(all="ignore"):
+                obj.coords = np.where(np.isfinite(obj.coords), np.asarray(obj.coords) * 0.5 + 0.25, obj.coords)
+            obj.atoms[0].label = "EDT"
+            obj.name = "edited"
+            if obj.n_bonds:
+                obj.bonds[0].btype = BondType.Double if obj.bonds[0].btype != BondType.Double else BondType.Single
+            if hasattr(obj, "atomic_charges"):
+                obj.atomic_charges = np.asarray(obj.atomic_charges) * 0 + 0.125
+            n0 = len(fails)
+            roundtrip(obj, cls, kind, fails, recipe.get("entry", "loads"))
+            for f_ in fails[n0:]:
+                f_.sig += ":second-write-after-in-place-edit"
         if kind == "Structure" and not fails:
             # dump_mol2(stream) must agree with dumps_mol2()
             s = io.StringIO()
@@ -242,7 +257,7 @@ def strat_rand(tier):
     ensr = chem.ensemble_recipe(max_atoms=8, max_bonds=10, max_conf=4, attribs=False, mol2_safe=True).filter(lambda r: len(r["confs"]) >= 1).map(_mol2ify)
     return st.one_of(
         st.fixed_dictionaries({"kind": st.just("Substructure"), "mol": molr, "sub": st.lists(st.integers(0, 60), min_size=1, max_size=8)}),
-        st.fixed_dictionaries({"kind": st.sampled_from(["Molecule", "Molecule", "Structure"]), "mol": molr, "entry": st.sampled_from(["loads", "loads", "loads_all", "load_stream"])}),
+        st.fixed_dictionaries({"kind": st.sampled_from(["Molecule", "Molecule", "Structure"]), "mol": molr, "entry": st.sampled_from(["loads", "loads", "loads_all", "load_stream"]), "again": st.booleans()}),
         st.fixed_dictionaries({"kind": st.just("ConformerEnsemble"), "mol": ensr}),
     )
 
